@@ -60,9 +60,10 @@ def edge_guards(fn, block, cache=None):
     return out
 
 
-def atoms(fn, cond, pol, inline=True):
+def atoms(fn, cond, pol, inline=True, cond_expand=True):
     """decompose cond==pol into atomic (node, polarity) facts"""
     out = []
+    depth = [0]
 
     def rec(n, p):
         n = fn.strip(n)
@@ -90,9 +91,33 @@ def atoms(fn, cond, pol, inline=True):
         if k == 'CXXMemberCallExpr' and (n.get('fq') or '').endswith('::operator bool') and n.get('obj') is not None:
             out.append((n, p))
             return
+        if k == 'DeclRefExpr' and n.get('vid') in fn.const_init and depth[0] < 3:
+            # `const bool ok = a && b; if (!ok) fail;` -- the test is the initialiser's
+            m = fn.strip(fn.const_init[n['vid']])
+            while m['k'] in ('ImplicitCastExpr', 'ParenExpr') and m.get('c'):
+                m = fn.strip(m['c'][0])
+            if (m['k'] == 'BinaryOperator' and m['op'] in ('&&', '||', '<', '>', '<=', '>=', '==', '!=')) or (m['k'] == 'UnaryOperator' and m['op'] == '!'):
+                depth[0] += 1
+                rec(m, p)
+                depth[0] -= 1
+                return
         out.append((n, p))
         if k == 'CallExpr' and inline:
             out.extend(_inline_predicate(fn, n, p))
+        # `T * const r = c ? f() : NULL; if (!r) fail;` -- r != 0 means c held and f() != 0 (same for a conditional used directly)
+        m = fn.deref(n) if p and depth[0] < 3 and cond_expand else None
+        if m is not None and m['k'] == 'ConditionalOperator' and len(m.get('c') or []) == 3:
+            c0, a1, a2 = m['c']
+            sel = None
+            if fn.is_null(a2) and not fn.is_null(a1):
+                sel = (True, a1)
+            elif fn.is_null(a1) and not fn.is_null(a2):
+                sel = (False, a2)
+            if sel is not None:
+                depth[0] += 1
+                rec(c0, sel[0])
+                rec(sel[1], True)
+                depth[0] -= 1
 
     rec(cond, pol)
     return out
@@ -182,6 +207,12 @@ def facts_at_block(fn, block):
             f2 = norm(fn, a, p, resolve=True) + (fn.loc(a) if 'ln' in a else '',)
             if f2[:3] != f1[:3]:
                 out.append(f2)          # the same fact with const locals replaced by their initialisers
+    # every comparison also in its mirrored spelling (`a < b` is `b > a`): rules name the operand they are about first
+    for f in list(out):
+        if not _isint(f[2]) and f[1] in FLIP:
+            g = (f[2], FLIP[f[1]], f[0]) + tuple(f[3:])
+            if g not in out:
+                out.append(g)
     return out
 
 
@@ -245,8 +276,9 @@ def edges_with(fn, pred):
             continue
         for idx, pol in ((0, True), (1, False)):
             for a, p in atoms(fn, c, pol):
-                if pred(norm(fn, a, p)) or pred(norm(fn, a, p, resolve=True)):
-                    out.add((b, idx))
+                for f in (norm(fn, a, p), norm(fn, a, p, resolve=True)):
+                    if pred(f) or (f[1] in FLIP and not _isint(f[2]) and pred((f[2], FLIP[f[1]], f[0]))):
+                        out.add((b, idx))
     return out
 
 
